@@ -303,6 +303,28 @@ def split_strategy(tier):
     return st.fixed_dictionaries({"prog": prog_strategy(tier), "plan": plan_strategy()})
 
 
+BIG = [2 ** 53, 2 ** 53 + 1, 2 ** 60 + 3, 10 ** 18 + 7]
+
+
+def bigclock_strategy(tier):
+    """integer-tick clocks beyond 2**53 (picosecond ticks, ns since the epoch): every instant is an int that a float cannot
+    represent; stops at odd offsets must be honoured exactly"""
+    ints = [0, 1, 1, 2, 3, 5, 7]
+    pol = kgen.policies(bias=["continue"] * 6, dl=st.sampled_from(ints))
+    prog = kgen.programs(WEIGHTS, max_bodies=4, max_instrs=6, max_start=5, max_nev=2, min_nev=1, pol=pol, ipol=pol, delay_set=ints,
+                         min_instrs=2, min_start=2, inits=BIG)
+    num = st.tuples(st.just("num"), st.sampled_from([1, 1, 2, 3, 5, 7, 9, 0, -1])).map(list)
+    due = st.tuples(st.just("due"), st.integers(0, 3)).map(list)
+    stp = st.tuples(st.just("step"), st.integers(1, 3)).map(list)
+    return st.fixed_dictionaries({"prog": prog, "plan": st.lists(kgen.weighted([(num, 4), (due, 2), (stp, 1)]), min_size=2, max_size=7)})
+
+
+def run_bigclock(case):
+    info = run_split(case)
+    return {"nontrivial": info["nontrivial"], "classes": [c for c in info["classes"] if c in (
+        "stop at busy instant", ">=2 effective stops", "illegal stop refused")] + ["integer clock beyond 2**53"]}
+
+
 # ------------------------------------------------------------------ other interpreters / hash seeds
 def child_main(path):
     """executed in a fresh interpreter: print one digest per case"""
@@ -370,7 +392,10 @@ def hashseed_batch(tier, seed_value):
         for hs, p in procs:
             out, _ = p.communicate(timeout=1800)
             if p.returncode != 0:
-                raise HarnessError(f"hash-seed child {hs} failed")
+                # the parent interpreter has just digested the same batch without trouble
+                raise Violation("C03.repro", f"the batch that ran in this interpreter failed in a fresh interpreter under "
+                                             f"PYTHONHASHSEED={hs} (exit {p.returncode}): {(out or '').strip()[-300:]}",
+                                "C03.repro/child-failed")
             results[hs] = json.loads(out.strip().splitlines()[-1])
     finally:
         os.unlink(tmp)
@@ -415,6 +440,8 @@ PROP = Property(
                              "step-only segment", "stop at float-inexact offset",
                              "illegal stop refused", "until-event already processed", "until-event never triggered",
                              "stepped on after run() raised"]),
+            Facet("bigclock", bigclock_strategy, run_bigclock, quick=500, thorough=3000,
+                  essential=["stop at busy instant", ">=2 effective stops"]),
             Facet("twice", prog_strategy, run_twice, quick=300, thorough=2000),
             Facet("net_split", _net_split_strategy, _run_net_split, quick=600, thorough=3000,
                   essential=["network scenario split", "scenario with monitors"])],
